@@ -9,8 +9,9 @@ stdout: JSON list, one entry per job:
    ["internal", exception class, file, function, lineno, message[:200], expr]
                                                  any other exception; (file, function) = innermost frame inside jmc/;
                                                  expr = source text (whitespace removed) of the very sub-expression /
-                                                 statement of that frame that was executing (code.co_positions), e.g.
-                                                 `tokens[3]`: the crash SITE, stable under moving / re-indenting code
+                                                 statement of that frame that was executing (code.co_positions) + " @ " +
+                                                 the text of its source line, e.g. `tokens[3] @ deltokens[3]`: the
+                                                 crash SITE, stable under moving / re-indenting code
    ["timeout"]                                   signal.alarm fired
 """
 import itertools
@@ -43,7 +44,10 @@ def failing_expr(tb) -> str:
         else:
             lines[0] = lines[0][c0:]
             lines[-1] = lines[-1][:c1]
-        return "".join(b"".join(lines).decode("utf-8", "replace").split())[:160]
+        expr = "".join(b"".join(lines).decode("utf-8", "replace").split())[:160]
+        # + the (whitespace-free) text of the source line it starts on: `tokens[1]` alone does not tell
+        # `del tokens[1]` from `tokens[1] = merge(...)` in another branch of the same function
+        return expr + " @ " + "".join(linecache.getline(code.co_filename, l0).split())[:100]
     except Exception:  # noqa
         return "?"
 
